@@ -687,6 +687,14 @@ private:
                  , "Inconsistent image format in tiff file."
                  );
 
+      // the requested columns are addressed below as pixels of the buffer's type, which need not be
+      // the sample format the tags in the file describe (e.g. when converting a planar file)
+      io_error_if( (  static_cast< std::size_t >( this->_settings._top_left.x + this->_settings._dim.x )
+                    * detail::buffer_pixel_bit_size< it_t >::value + 7 ) / 8
+                   > row_buffer_helper.buffer().size() * sizeof( typename row_buffer_helper_t::element_t )
+                 , "Inconsistent image format in tiff file."
+                 );
+
       it_t begin = row_buffer_helper.begin();
 
       it_t first = begin + this->_settings._top_left.x;
